@@ -18,7 +18,7 @@ def head1 (s : String) : Char := s.toList.headD ' '
 def kindOf : String → Option Kind
   | "cb" => some .coinbase | "ra" => some .registerAsset | "wd" => some .withdraw
   | "rd" => some .returnDeposit | "pp" => some .proposal | "rv" => some .review
-  | "tk" => some .tracking | "ot" => some .other | "sp" => some .other | _ => none
+  | "tk" => some .tracking | "ot" => some .other | "sp" => some .other | "rc" => some .other | "xc" => some .other | _ => none
 
 def takeN {α} (f : List String → Option (α × List String)) : Nat → List String → Option (List α × List String)
   | 0, ts => some ([], ts)
